@@ -9,7 +9,7 @@ RULE = ("random schemas (depth <= 3: SEQUENCE / SET / SEQUENCE OF, explicit and 
         "encoded with the REAL combinators in a mode and decoded with the REAL typed readers in the same mode (DER output also in BER mode). "
         "Oracle computed by the generator: the decoded trace is the value that was encoded, all octets are consumed, and the produced octets "
         "parse under the reference grammar of the mode. non-trivial = round trip of a schema with at least one field.")
-CROSS = {'C07': 3000, 'C16': 2000, 'C11': 2000, 'C06': 1500, 'C05': 1500}   # cross streams: samples of neighbouring properties' request streams (outcomes, model <-> implementation)
+CROSS = {'C07': 3000, 'C16': 2000, 'C11': 2000, 'C06': 1500, 'C05': 1500, 'C15': 2500, 'C14': 1500, 'C18': 1000, 'C19': 1000, 'C20': 1000}   # cross streams: samples of neighbouring properties' request streams (outcomes, model <-> implementation)
 EXHAUSTIVE = {"quick": False, "thorough": False}
 EXHAUSTIVE_NOTE = {"quick": "", "thorough": ""}
 ASSUMPTIONS = ["CER encoders of string types are documented as unimplemented and not requested in CER"]
